@@ -1,4 +1,4 @@
 """Manifest-level facts kept by hand (per-property claims live in lib/props/cNN.py as CLAIM)."""
 HOOK_COMMITS = []     # commits in /repo that add verif-tagged hooks
-HOLD_BACK = set()     # property ids whose check exists but is not claimed yet (still being built)
+READY = {"C04"}       # property ids whose check is finished and claimed in MANIFEST.json
 NOT_YET = {}          # property id -> reason it is not claimed
